@@ -31,11 +31,20 @@ pub const NOT_INSTRUCTION_METHODS: &[&str] = &[
     "emit_u128",
 ];
 
-/// public instruction methods without a row (method, reason): none -- every public method is a row
-/// or in NOT_INSTRUCTION_METHODS. Not reachable through any public method (so not covered by any row):
-/// the private immediate forms b_imm / bc_imm / tbz_imm / tbnz_imm and the FP/SIMD (`v`) variant of
-/// cls::ldst_pair*.
-pub const NOT_COVERED: &[(&str, &str)] = &[];
+/// public instruction methods whose row is NOT decided by Kani yet (method, reason). Every public method
+/// has a row or is in NOT_INSTRUCTION_METHODS; the five below have a row (same macro as their siblings
+/// ldr_mem_x / ldr_mem_d / str_mem_x / str_mem_w / str_mem_s, which hold in 11-17 min), but CBMC ran out
+/// of memory on them three times while the machine was shared with other proofs (53 of 62 GB in use).
+/// They pass the concrete runs (vp_run sample, thousands of operands, llvm-mc cross-check).
+/// Not reachable through any public method (so not covered by any row): the private immediate forms
+/// b_imm / bc_imm / tbz_imm / tbnz_imm and the FP/SIMD (`v`) variant of cls::ldst_pair*.
+pub const NOT_COVERED: &[(&str, &str)] = &[
+    ("ldr_mem_w", "row exists; CBMC out of memory (needs ~15 GB free, 10-15 min): undecided"),
+    ("ldr_mem_b", "row exists; CBMC out of memory (needs ~15 GB free, 10-15 min): undecided"),
+    ("ldr_mem_s", "row exists; CBMC out of memory (needs ~15 GB free, 10-15 min): undecided"),
+    ("str_mem_b", "row exists; CBMC out of memory (needs ~15 GB free, 10-15 min): undecided"),
+    ("str_mem_d", "row exists; CBMC out of memory (needs ~15 GB free, 10-15 min): undecided"),
+];
 
 /// rows that CBMC decides, but slowly (5 min for mov_imm, 10-15 min and several GB each for the
 /// ldr_mem_* / str_mem_* helpers, which contain mov_imm): a driver with a time budget may skip them.
